@@ -4041,3 +4041,858 @@ Example C15_roundtrip_nonvacuous :
   is_ok (block_to_biscuit [] ex_block) = true /\ List.length (bl_body ex_block) = 4%nat /\
   flat_i (lay_block ex_block) = bs ex_block_text.
 Proof. vm_compute. repeat split. Qed.
+
+(* why each exclusion of the printable domain is needed *)
+Definition fact_block (t : term) : block :=
+  {| b_facts := [{| p_name := bs "a"; p_terms := [t] |}]; b_rules := []; b_checks := [] |}.
+Definition reparse (b : block) : res block := parse_block (reassemble (print_block (fun _ => 1024) b)) [].
+Definition same_block (r : res block) (b : block) : bool :=
+  match r with
+  | Ok b' => list_eqb pred_seqb (b_facts b') (b_facts b)
+  | _ => false
+  end.
+
+Example C15_domain_is_tight :
+  (* in the domain: fine *)
+  same_block (reparse (fact_block (TA (AStr (bs "x"))))) (fact_block (TA (AStr (bs "x")))) = true /\
+  same_block (reparse (fact_block (TSet [AInt 1; AInt 2]))) (fact_block (TSet [AInt 1; AInt 2])) = true /\
+  (* a string starting with hex: is read back as bytes *)
+  reparse (fact_block (TA (AStr (bs "hex:41")))) = Ok (fact_block (TA (ABytes [65]))) /\
+  (* a quote inside a string, a negative integer, a set of strings (printed by index), a date after 9999 *)
+  reparse (fact_block (TA (AStr [97; 34; 98]))) = Err EParse /\
+  reparse (fact_block (TA (AInt (-5)))) = Err EParse /\
+  reparse (fact_block (TSet [AStr (bs "x")])) = Err EParse /\
+  reparse (fact_block (TA (ADate 253402300800))) = Err EParse /\
+  (* a set whose elements are not in printed order comes back reordered *)
+  reparse (fact_block (TSet [AInt 2; AInt 1])) = Ok (fact_block (TSet [AInt 1; AInt 2])) /\
+  reparse (fact_block (TSet [AInt 10; AInt 9])) = Ok (fact_block (TSet [AInt 10; AInt 9])) /\
+  (* the string "!" as a whole expression is read back as the operator *)
+  reparse {| b_facts := []; b_rules := [];
+             b_checks := [[{| r_head := query_head; r_body := []; r_exprs := [[OVal (TA (AStr [33]))]] |}]] |}
+    = Err EParse.
+Proof. vm_compute. repeat split. Qed.
+
+(* ================================================================== *)
+(* lexability of the printers' layouts from per-token conditions        *)
+(* ================================================================== *)
+Definition first_byte (x : item) : option N :=
+  match x with
+  | IW c => Some c
+  | IT t => match src t with c :: _ => Some c | [] => None end
+  end.
+Definition nonws_nx (nx : option N) : bool :=
+  match nx with None => true | Some d => negb (is_blank d || is_eol d) end.
+Definition item_ok (x : item) (nx : option N) : bool :=
+  match x with
+  | IT t => tok_ok t nx && forallb in_domain (src t)
+  | IW c => ((c =? 32) || (c =? 10)) && nonws_nx nx
+  end.
+Definition next_byte (l : list item) (nx : option N) : option N :=
+  match l with [] => nx | y :: _ => first_byte y end.
+(* every item is fine given the first byte of what follows it; [nx] follows the list *)
+Fixpoint lex_loc (l : list item) (nx : option N) : bool :=
+  match l with
+  | [] => true
+  | x :: l' => item_ok x (next_byte l' nx) && lex_loc l' nx
+  end.
+
+Lemma next_byte_app a b nx : next_byte (a ++ b) nx = next_byte a (next_byte b nx).
+Proof. destruct a; reflexivity. Qed.
+Lemma lex_loc_app a b nx : lex_loc (a ++ b) nx = lex_loc a (next_byte b nx) && lex_loc b nx.
+Proof.
+  induction a as [|x a IH]; [reflexivity|]. cbn [app lex_loc]. rewrite IH, next_byte_app, andb_assoc. reflexivity.
+Qed.
+
+Lemma lex_loc_follow l : lex_loc l None = true -> follow (flat_i l) = next_byte l None.
+Proof.
+  destruct l as [|[t|c] l]; [reflexivity| |reflexivity]. cbn [lex_loc item_ok]. intros H.
+  apply andb_true_iff in H as [H _]. apply andb_true_iff in H as [H _].
+  pose proof (tok_ok_src_nonempty t _ H) as Hne. cbn [flat_i next_byte first_byte].
+  destruct (src t); [congruence|reflexivity].
+Qed.
+
+Lemma lex_loc_lexable : forall l, lex_loc l None = true -> lexable_i l = true.
+Proof.
+  induction l as [|x l IH]; [reflexivity|]. cbn [lex_loc]. intros H. apply andb_true_iff in H as [Hx Hl].
+  pose proof (lex_loc_follow l Hl) as Hf. specialize (IH Hl).
+  destruct x as [t|c]; cbn [lexable_i item_ok] in *.
+  - apply andb_true_iff in Hx as [Ht Hd]. rewrite Hf, Ht, Hd, IH. reflexivity.
+  - apply andb_true_iff in Hx as [Hc Hn]. rewrite Hc, IH.
+    assert (Hh : hd_nonws (flat_i l) = nonws_nx (follow (flat_i l))) by (destruct (flat_i l); reflexivity).
+    rewrite Hh, Hf, Hn. reflexivity.
+Qed.
+
+(* the contexts the printers put an operand in: end of text, " ", ")", ",", ";", ".", "]" *)
+Definition safe_list : list (option N) := [None; Some 32; Some 41; Some 44; Some 59; Some 46; Some 93].
+Definition safe (nx : option N) : bool :=
+  match nx with None => true | Some c => existsb (N.eqb c) [32; 41; 44; 59; 46; 93] end.
+Definition tok_safe (t : token) : bool :=
+  forallb (tok_ok t) safe_list && forallb in_domain (src t).
+
+Lemma tok_safe_ok t nx : tok_safe t = true -> safe nx = true -> item_ok (IT t) nx = true.
+Proof.
+  unfold tok_safe, item_ok. intros H Hs. apply andb_true_iff in H as [H Hd]. rewrite Hd, andb_true_r.
+  cbn [safe_list forallb] in H.
+  repeat match goal with Hx : (_ && _) = true |- _ => apply andb_true_iff in Hx; destruct Hx end.
+  destruct nx as [c|]; [|assumption]. cbn [safe existsb] in Hs.
+  repeat (apply orb_true_iff in Hs; destruct Hs as [Hs|Hs]; [apply N.eqb_eq in Hs; subst c; assumption|]).
+  discriminate.
+Qed.
+
+(* a lexable token starts with a non-blank byte *)
+Lemma tok_ok_first t nx : tok_ok t nx = true -> nonws_nx (first_byte (IT t)) = true.
+Proof.
+  destruct t as [k x]. unfold tok_ok, first_byte, src. cbn [tk tx].
+  destruct k; cbn [kind_eqb kind_code N.eqb Pos.eqb]; cbv iota; intros H; try discriminate.
+  - apply mem_cases in H. cbn in H. destruct H as [<-|[<-|[<-|[]]]]; reflexivity.
+  - apply mem_cases in H. cbn in H. destruct H as [<-|[<-|[<-|[<-|[<-|[]]]]]]; reflexivity.
+  - destruct (strip lit_hex x) as [h|] eqn:E; [|discriminate]. apply strip_inv in E. subst x. reflexivity.
+  - apply bytes_eqb_true in H. subst x. reflexivity.
+  - apply bytes_eqb_true in H. subst x. reflexivity.
+  - apply bytes_eqb_true in H. subst x. reflexivity.
+  - apply bytes_eqb_true in H. subst x. reflexivity.
+  - apply orb_true_iff in H as [H|H]; [apply orb_true_iff in H as [H|H]|].
+    + apply mem_cases in H. cbn in H. destruct H as [<-|[<-|[<-|[<-|[<-|[<-|[]]]]]]]; reflexivity.
+    + apply andb_true_iff in H as [H _]. apply bytes_eqb_true in H. subst x. reflexivity.
+    + apply andb_true_iff in H as [H _]. apply bytes_eqb_true in H. subst x. reflexivity.
+  - destruct x as [|a [|b body]]; try discriminate.
+    repeat match goal with Hx : (_ && _) = true |- _ => apply andb_true_iff in Hx; destruct Hx end.
+    match goal with Ha : (a =? 47) = true |- _ => apply N.eqb_eq in Ha; subst a end. reflexivity.
+  - reflexivity.
+  - destruct x as [|d w]; [discriminate|].
+    repeat match goal with Hx : (_ && _) = true |- _ => apply andb_true_iff in Hx; destruct Hx end.
+    match goal with Ha : (d =? 36) = true |- _ => apply N.eqb_eq in Ha; subst d end. reflexivity.
+  - destruct x as [|o w]; [discriminate|]. apply andb_true_iff in H as [Ho _].
+    apply N.eqb_eq in Ho. subst o. reflexivity.
+  - do 20 (destruct x as [|? x]; [discriminate|]). cbn [dt_shape] in H. destruct x; [|discriminate].
+    repeat match goal with Hx : (_ && _) = true |- _ => apply andb_true_iff in Hx; destruct Hx end.
+    match goal with Hd : is_digit ?c = true |- nonws_nx (Some ?c) = true =>
+      apply is_digit_iff in Hd; cbn [nonws_nx]; apply negb_true_iff, orb_false_iff; split;
+      [apply is_blank_false|apply is_eol_false]; lia end.
+  - destruct x as [|c w]; [discriminate|].
+    repeat match goal with Hx : (_ && _) = true |- _ => apply andb_true_iff in Hx; destruct Hx end.
+    match goal with Hx : forallb is_digit (c :: w) = true |- _ =>
+      cbn [forallb] in Hx; apply andb_true_iff in Hx; destruct Hx as [Hd _] end.
+    apply is_digit_iff in Hd. cbn [nonws_nx]. apply negb_true_iff, orb_false_iff; split;
+      [apply is_blank_false|apply is_eol_false]; lia.
+  - apply mem_cases in H. cbn in H. destruct H as [<-|[<-|[]]]; reflexivity.
+  - destruct x as [|c w]; [discriminate|].
+    repeat match goal with Hx : (_ && _) = true |- _ => apply andb_true_iff in Hx; destruct Hx end.
+    match goal with Hl : is_lower c = true |- _ => apply is_lower_iff in Hl end.
+    cbn [nonws_nx]. apply negb_true_iff, orb_false_iff; split; [apply is_blank_false|apply is_eol_false]; lia.
+  - apply orb_true_iff in H as [H|H].
+    + apply mem_cases in H. cbn in H. destruct H as [<-|[<-|[<-|[<-|[<-|[<-|[<-|[]]]]]]]]; reflexivity.
+    + apply andb_true_iff in H as [H _]. apply bytes_eqb_true in H. subst x. reflexivity.
+Qed.
+
+Definition head_nonws (l : list item) : bool :=
+  match l with x :: _ => nonws_nx (first_byte x) && negb (is_nil l) | [] => false end.
+
+(* punctuation and keywords that are lexable whatever follows *)
+Lemma item_ok_any t : (forall nx, tok_ok t nx = true) -> forallb in_domain (src t) = true -> forall nx, item_ok (IT t) nx = true.
+Proof. intros H Hd nx. cbn [item_ok]. rewrite H, Hd. reflexivity. Qed.
+Lemma ok_lparen nx : item_ok (IT t_lparen) nx = true. Proof. reflexivity. Qed.
+Lemma ok_rparen nx : item_ok (IT t_rparen) nx = true. Proof. reflexivity. Qed.
+Lemma ok_lbrack nx : item_ok (IT t_lbrack) nx = true. Proof. reflexivity. Qed.
+Lemma ok_rbrack nx : item_ok (IT t_rbrack) nx = true. Proof. reflexivity. Qed.
+Lemma ok_comma nx : item_ok (IT t_comma) nx = true. Proof. reflexivity. Qed.
+Lemma ok_semi nx : item_ok (IT t_semi) nx = true. Proof. reflexivity. Qed.
+Lemma ok_bang nx : item_ok (IT t_bang) nx = true. Proof. reflexivity. Qed.
+Lemma ok_dot nx : item_ok (IT t_dot) nx = true. Proof. reflexivity. Qed.
+Lemma ok_check_if nx : item_ok (IT t_check_if) nx = true. Proof. reflexivity. Qed.
+Lemma ok_sp nx : nonws_nx nx = true -> item_ok (IW 32) nx = true.
+Proof. intros H. cbn. exact H. Qed.
+
+(* ---------- terms ---------- *)
+Fixpoint ls_term (t : gterm) : bool :=
+  match t with
+  | GSet x xs => ls_term x && ls_terms xs
+  | _ => tok_safe (term_tok t)
+  end
+with ls_terms (xs : gterms) : bool :=
+  match xs with GNil => true | GCons y ys => ls_term y && ls_terms ys end.
+
+Lemma tok_safe_first t : tok_safe t = true -> nonws_nx (first_byte (IT t)) = true.
+Proof.
+  unfold tok_safe. intros H. apply andb_true_iff in H as [H _]. cbn [safe_list forallb] in H.
+  apply andb_true_iff in H as [H _]. exact (tok_ok_first t None H).
+Qed.
+
+Lemma head_term t : ls_term t = true -> head_nonws (lay_term t) = true.
+Proof.
+  destruct t; cbn [ls_term lay_term head_nonws]; intros H; try (rewrite (tok_safe_first _ H); reflexivity).
+  reflexivity.
+Qed.
+
+Lemma next_commas xs nx : safe nx = true -> safe (next_byte (lay_commas xs) nx) = true.
+Proof. intros H. destruct xs; [exact H|reflexivity]. Qed.
+
+Lemma term_lex_all :
+  (forall t, ls_term t = true -> forall nx, safe nx = true -> lex_loc (lay_term t) nx = true) /\
+  (forall xs, ls_terms xs = true -> forall nx, safe nx = true -> lex_loc (lay_commas xs) nx = true).
+Proof.
+  apply gterm_mutind; try (intros; cbn [lay_term lex_loc next_byte]; rewrite tok_safe_ok by assumption; reflexivity).
+  - intros x IHx xs IHxs H nx Hnx. cbn [ls_term] in H. apply andb_true_iff in H as [Hx Hxs].
+    cbn [lay_term lex_loc]. rewrite ok_lbrack. cbn [andb].
+    rewrite lex_loc_app, lex_loc_app. cbn [lex_loc next_byte]. rewrite ok_rbrack.
+    rewrite (IHxs Hxs (first_byte (IT t_rbrack)) eq_refl).
+    rewrite IHx; [reflexivity|exact Hx|].
+    rewrite next_byte_app. apply next_commas. reflexivity.
+  - intros _ nx _. reflexivity.
+  - intros y IHy ys IHys H nx Hnx. cbn [ls_terms] in H. apply andb_true_iff in H as [Hy Hys].
+    cbn [lay_commas lex_loc]. cbn [next_byte first_byte]. rewrite ok_comma. cbn [andb].
+    rewrite lex_loc_app, (IHys Hys nx Hnx), (IHy Hy) by (apply next_commas; exact Hnx).
+    rewrite next_byte_app.
+    pose proof (head_term y Hy) as Hh. destruct (lay_term y) as [|i l]; [discriminate|].
+    cbn [head_nonws] in Hh. apply andb_true_iff in Hh as [Hh _].
+    cbn [next_byte]. rewrite (ok_sp _ Hh). reflexivity.
+Qed.
+
+(* ---------- expressions ---------- *)
+Definition leaf_safe (o : gop) : Prop := match o with GVal t => ls_term t = true | _ => True end.
+Notation LS ops := (Forall leaf_safe ops).
+
+Lemma lex_op t l nx :
+  nonws_nx (first_byte (IT t)) = true -> item_ok (IT t) (Some 32) = true ->
+  head_nonws l = true -> lex_loc l nx = true -> lex_loc (IW 32 :: IT t :: IW 32 :: l) nx = true.
+Proof.
+  intros H1 H2 H3 H4. destruct l as [|i l]; [discriminate|].
+  cbn [head_nonws] in H3. apply andb_true_iff in H3 as [H3 _].
+  cbn [lex_loc next_byte] in *. rewrite (ok_sp _ H1). cbn [first_byte] in *. rewrite H2, (ok_sp _ H3).
+  exact H4.
+Qed.
+
+Lemma head_app a b : head_nonws a = true -> head_nonws (a ++ b) = true.
+Proof. destruct a; [discriminate|]. cbn. intros H. exact H. Qed.
+
+Lemma lex_cat a b nx :
+  lex_loc a (next_byte b nx) = true -> lex_loc b nx = true -> lex_loc (a ++ b) nx = true.
+Proof. intros H1 H2. rewrite lex_loc_app, H1, H2. reflexivity. Qed.
+
+Lemma LS_app a b : LS (a ++ b) -> LS a /\ LS b.
+Proof. apply Forall_app. Qed.
+
+Lemma expr_lex_all :
+  (forall e, LS (to_ops e) -> forall nx, safe nx = true ->
+     lex_loc (lay_expression e) nx = true /\ head_nonws (lay_expression e) = true) /\
+  (forall r, LS (ops_o1 r) -> forall nx, safe nx = true ->
+     lex_loc (lay_o1 r) nx = true /\ safe (next_byte (lay_o1 r) nx) = true) /\
+  (forall e, LS (ops_e1 e) -> forall nx, safe nx = true ->
+     lex_loc (lay_e1 e) nx = true /\ head_nonws (lay_e1 e) = true) /\
+  (forall r, LS (ops_o2 r) -> forall nx, safe nx = true ->
+     lex_loc (lay_o2 r) nx = true /\ safe (next_byte (lay_o2 r) nx) = true) /\
+  (forall e, LS (ops_e2 e) -> forall nx, safe nx = true ->
+     lex_loc (lay_e2 e) nx = true /\ head_nonws (lay_e2 e) = true) /\
+  (forall r, LS (ops_o3 r) -> forall nx, safe nx = true ->
+     lex_loc (lay_o3 r) nx = true /\ safe (next_byte (lay_o3 r) nx) = true) /\
+  (forall e, LS (ops_e3 e) -> forall nx, safe nx = true ->
+     lex_loc (lay_e3 e) nx = true /\ head_nonws (lay_e3 e) = true) /\
+  (forall r, LS (ops_o4 r) -> forall nx, safe nx = true ->
+     lex_loc (lay_o4 r) nx = true /\ safe (next_byte (lay_o4 r) nx) = true) /\
+  (forall e, LS (ops_e4 e) -> forall nx, safe nx = true ->
+     lex_loc (lay_e4 e) nx = true /\ head_nonws (lay_e4 e) = true) /\
+  (forall r, LS (ops_o5 r) -> forall nx, safe nx = true ->
+     lex_loc (lay_o5 r) nx = true /\ safe (next_byte (lay_o5 r) nx) = true) /\
+  (forall e, LS (ops_e5 e) -> forall nx, safe nx = true ->
+     lex_loc (lay_e5 e) nx = true /\ head_nonws (lay_e5 e) = true) /\
+  (forall e, LS (ops_e6 e) -> forall nx, safe nx = true ->
+     lex_loc (lay_e6 e) nx = true /\ head_nonws (lay_e6 e) = true) /\
+  (forall r, LS (ops_o7 r) -> forall nx, safe nx = true ->
+     lex_loc (lay_o7 r) nx = true /\ safe (next_byte (lay_o7 r) nx) = true) /\
+  (forall a, LS (ops_oe a) -> lex_loc (lay_oe a) (Some 41) = true) /\
+  (forall t, LS (ops_et t) -> forall nx, safe nx = true ->
+     lex_loc (lay_et t) nx = true /\ head_nonws (lay_et t) = true).
+Proof.
+  apply expr_mutind.
+  - (* Expression *) intros l L r R H nx Hnx. cbn [to_ops] in H. apply LS_app in H as [Hl Hr].
+    destruct (R Hr nx Hnx) as [R1 R2]. destruct (L Hl _ R2) as [L1 L2].
+    cbn [lay_expression]. split; [apply lex_cat; assumption|apply head_app; exact L2].
+  - intros _ nx Hnx. split; [reflexivity|exact Hnx].
+  - (* O1Cons *) intros e E r R H nx Hnx. cbn [ops_o1] in H. apply LS_app in H as [He H].
+    apply LS_app in H as [_ Hr]. destruct (R Hr nx Hnx) as [R1 R2]. destruct (E He _ R2) as [E1 E2].
+    cbn [lay_o1]. split; [|reflexivity].
+    apply lex_op; [reflexivity|reflexivity|apply head_app; exact E2|apply lex_cat; assumption].
+  - intros l L r R H nx Hnx. cbn [ops_e1] in H. apply LS_app in H as [Hl Hr].
+    destruct (R Hr nx Hnx) as [R1 R2]. destruct (L Hl _ R2) as [L1 L2].
+    cbn [lay_e1]. split; [apply lex_cat; assumption|apply head_app; exact L2].
+  - intros _ nx Hnx. split; [reflexivity|exact Hnx].
+  - intros e E r R H nx Hnx. cbn [ops_o2] in H. apply LS_app in H as [He H].
+    apply LS_app in H as [_ Hr]. destruct (R Hr nx Hnx) as [R1 R2]. destruct (E He _ R2) as [E1 E2].
+    cbn [lay_o2]. split; [|reflexivity].
+    apply lex_op; [reflexivity|reflexivity|apply head_app; exact E2|apply lex_cat; assumption].
+  - intros l L r R H nx Hnx. cbn [ops_e2] in H. apply LS_app in H as [Hl Hr].
+    destruct (R Hr nx Hnx) as [R1 R2]. destruct (L Hl _ R2) as [L1 L2].
+    cbn [lay_e2]. split; [apply lex_cat; assumption|apply head_app; exact L2].
+  - intros _ nx Hnx. split; [reflexivity|exact Hnx].
+  - (* O3Some *) intros o e E H nx Hnx. cbn [ops_o3] in H. apply LS_app in H as [He _].
+    destruct (E He nx Hnx) as [E1 E2]. cbn [lay_o3]. split; [|reflexivity].
+    apply lex_op; [destruct o; reflexivity|destruct o; reflexivity|exact E2|exact E1].
+  - intros l L r R H nx Hnx. cbn [ops_e3] in H. apply LS_app in H as [Hl Hr].
+    destruct (R Hr nx Hnx) as [R1 R2]. destruct (L Hl _ R2) as [L1 L2].
+    cbn [lay_e3]. split; [apply lex_cat; assumption|apply head_app; exact L2].
+  - intros _ nx Hnx. split; [reflexivity|exact Hnx].
+  - intros o e E r R H nx Hnx. cbn [ops_o4] in H. apply LS_app in H as [He H].
+    apply LS_app in H as [_ Hr]. destruct (R Hr nx Hnx) as [R1 R2]. destruct (E He _ R2) as [E1 E2].
+    cbn [lay_o4]. split; [|reflexivity].
+    apply lex_op; [destruct o; reflexivity|destruct o; reflexivity|apply head_app; exact E2|apply lex_cat; assumption].
+  - intros l L r R H nx Hnx. cbn [ops_e4] in H. apply LS_app in H as [Hl Hr].
+    destruct (R Hr nx Hnx) as [R1 R2]. destruct (L Hl _ R2) as [L1 L2].
+    cbn [lay_e4]. split; [apply lex_cat; assumption|apply head_app; exact L2].
+  - intros _ nx Hnx. split; [reflexivity|exact Hnx].
+  - intros o e E r R H nx Hnx. cbn [ops_o5] in H. apply LS_app in H as [He H].
+    apply LS_app in H as [_ Hr]. destruct (R Hr nx Hnx) as [R1 R2]. destruct (E He _ R2) as [E1 E2].
+    cbn [lay_o5]. split; [|reflexivity].
+    apply lex_op; [destruct o; reflexivity|destruct o; reflexivity|apply head_app; exact E2|apply lex_cat; assumption].
+  - (* Expr5 *) intros neg e E H nx Hnx. cbn [ops_e5] in H. apply LS_app in H as [He _].
+    destruct (E He nx Hnx) as [E1 E2]. cbn [lay_e5]. destruct neg; cbn [app].
+    + split; [|reflexivity]. cbn [lex_loc]. rewrite ok_bang, E1. reflexivity.
+    + split; assumption.
+  - intros l L r R H nx Hnx. cbn [ops_e6] in H. apply LS_app in H as [Hl Hr].
+    destruct (R Hr nx Hnx) as [R1 R2]. destruct (L Hl _ R2) as [L1 L2].
+    cbn [lay_e6]. split; [apply lex_cat; assumption|apply head_app; exact L2].
+  - intros _ nx Hnx. split; [reflexivity|exact Hnx].
+  - (* O7Cons *) intros m a A r R H nx Hnx. cbn [ops_o7] in H. apply LS_app in H as [Ha H].
+    apply LS_app in H as [_ Hr]. destruct (R Hr nx Hnx) as [R1 R2]. specialize (A Ha).
+    cbn [lay_o7]. split; [|reflexivity].
+    cbn [lex_loc next_byte]. rewrite ok_dot. cbn [andb].
+    assert (Hm : item_ok (IT (t_method m)) (first_byte (IT t_lparen)) = true) by (destruct m; reflexivity).
+    rewrite Hm, ok_lparen. cbn [andb].
+    apply lex_cat; [exact A|]. cbn [lex_loc]. rewrite ok_rparen, R1. reflexivity.
+  - reflexivity.
+  - intros e E H. cbn [ops_oe] in H. cbn [lay_oe]. exact (proj1 (E H (Some 41) eq_refl)).
+  - (* ETTerm *) intros t H nx Hnx. cbn [ops_et] in H. inversion H as [|o l Ht _]; subst o l. cbn [leaf_safe] in Ht.
+    cbn [lay_et]. split; [apply (proj1 term_lex_all); assumption|apply head_term; exact Ht].
+  - (* ETParen *) intros a A H nx Hnx. cbn [lay_et]. split; [|reflexivity].
+    assert (Ha : LS (ops_oe a)).
+    { destruct a as [|e]; [constructor|]. cbn [ops_et] in H. apply LS_app in H as [H _]. exact H. }
+    cbn [lex_loc]. rewrite ok_lparen. cbn [andb]. apply lex_cat; [exact (A Ha)|].
+    cbn [lex_loc]. rewrite ok_rparen. reflexivity.
+Qed.
+
+(* ---------- predicates, bodies, checks, blocks ---------- *)
+Definition name_ok (n : bytes) : bool := tok_ok (Tok KIdent n) (Some 40) && forallb in_domain n.
+Definition ls_pred (p : Predicate) : bool := name_ok (pr_name p) && ls_terms (pr_ids p).
+
+Lemma pred_lex p nx : ls_pred p = true -> lex_loc (lay_pred p) nx = true /\ head_nonws (lay_pred p) = true.
+Proof.
+  destruct p as [name ids]. unfold ls_pred, lay_pred. cbn [pr_name pr_ids]. intros H.
+  apply andb_true_iff in H as [Hn Hids]. unfold name_ok in Hn. apply andb_true_iff in Hn as [Hn1 Hn2]. split.
+  - assert (Hname : item_ok (IT (Tok KIdent name)) (Some 40) = true).
+    { cbn [item_ok]. change (src (Tok KIdent name)) with name. rewrite Hn1, Hn2. reflexivity. }
+    cbn [lex_loc next_byte]. change (first_byte (IT t_lparen)) with (Some 40).
+    rewrite Hname, ok_lparen. cbn [andb].
+    apply lex_cat; [|cbn [lex_loc]; rewrite ok_rparen; reflexivity].
+    destruct ids as [|x xs]; [reflexivity|]. cbn [ls_terms] in Hids. apply andb_true_iff in Hids as [Hx Hxs].
+    cbn [lay_ids next_byte]. change (first_byte (IT t_rparen)) with (Some 41).
+    apply lex_cat; [|apply (proj2 term_lex_all); [exact Hxs|reflexivity]].
+    apply (proj1 term_lex_all); [exact Hx|]. apply next_commas. reflexivity.
+  - cbn [head_nonws]. rewrite (tok_ok_first _ _ Hn1). reflexivity.
+Qed.
+
+Definition leaf_safe_b (o : gop) : bool := match o with GVal t => ls_term t | _ => true end.
+Lemma leaf_safe_LS l : forallb leaf_safe_b l = true -> LS l.
+Proof.
+  intros H. apply Forall_forall. intros o Hin. rewrite forallb_forall in H. specialize (H o Hin).
+  destruct o; [exact H|exact I|exact I].
+Qed.
+
+Definition ls_re (x : RuleElement) : bool :=
+  match x with REPred p => ls_pred p | REExpr e => forallb leaf_safe_b (to_ops e) end.
+
+Lemma re_lex x nx : ls_re x = true -> safe nx = true ->
+  lex_loc (lay_re x) nx = true /\ head_nonws (lay_re x) = true.
+Proof.
+  destruct x as [p|e]; cbn [ls_re lay_re]; intros H Hnx.
+  - apply pred_lex. exact H.
+  - apply (proj1 expr_lex_all); [apply leaf_safe_LS; exact H|exact Hnx].
+Qed.
+
+Lemma join_lex (sep : list item) :
+  (forall nx', safe (next_byte sep nx') = true) ->
+  (forall l nx', head_nonws l = true -> lex_loc l nx' = true -> lex_loc (sep ++ l) nx' = true) ->
+  forall ls, ls <> [] ->
+    Forall (fun l => forall nx', safe nx' = true -> lex_loc l nx' = true /\ head_nonws l = true) ls ->
+    forall nx, safe nx = true ->
+    lex_loc (lay_join sep ls) nx = true /\ head_nonws (lay_join sep ls) = true.
+Proof.
+  intros Hs1 Hs2. induction ls as [|x [|y ls] IH]; intros Hne Hall nx Hnx; [congruence| |].
+  - inversion Hall as [|x0 l0 Hx _]; subst x0 l0. cbn [lay_join]. apply Hx. exact Hnx.
+  - inversion Hall as [|x0 l0 Hx Hrest]; subst x0 l0. rewrite lay_join_cons2.
+    destruct (IH ltac:(discriminate) Hrest nx Hnx) as [I1 I2].
+    destruct (Hx (next_byte (sep ++ lay_join sep (y :: ls)) nx)) as [X1 X2].
+    { rewrite next_byte_app. apply Hs1. }
+    split; [|apply head_app; exact X2].
+    apply lex_cat; [exact X1|]. apply Hs2; assumption.
+Qed.
+
+Lemma comma_sep_1 nx' : safe (next_byte [IT t_comma; IW 32] nx') = true. Proof. reflexivity. Qed.
+Lemma comma_sep_2 l nx' :
+  head_nonws l = true -> lex_loc l nx' = true -> lex_loc ([IT t_comma; IW 32] ++ l) nx' = true.
+Proof.
+  intros H1 H2. destruct l as [|i l]; [discriminate|]. cbn [head_nonws] in H1. apply andb_true_iff in H1 as [H1 _].
+  cbn [app lex_loc next_byte] in *. rewrite ok_comma, (ok_sp _ H1). exact H2.
+Qed.
+Lemma or_sep_1 nx' : safe (next_byte [IW 32; IT t_or; IW 32] nx') = true. Proof. reflexivity. Qed.
+Lemma or_sep_2 l nx' :
+  head_nonws l = true -> lex_loc l nx' = true -> lex_loc ([IW 32; IT t_or; IW 32] ++ l) nx' = true.
+Proof. intros H1 H2. cbn [app]. apply lex_op; [reflexivity|reflexivity|exact H1|exact H2]. Qed.
+
+Definition ls_body (l : list RuleElement) : bool := forallb ls_re l.
+
+Lemma body_lex x xs nx : ls_body (x :: xs) = true -> safe nx = true ->
+  lex_loc (lay_body (x :: xs)) nx = true /\ head_nonws (lay_body (x :: xs)) = true.
+Proof.
+  intros H Hnx. unfold lay_body.
+  apply (join_lex [IT t_comma; IW 32] comma_sep_1 comma_sep_2); [discriminate| |exact Hnx].
+  apply Forall_forall. intros l Hin. apply in_map_iff in Hin as (y & <- & Hy).
+  unfold ls_body in H. rewrite forallb_forall in H. intros nx' Hnx'. apply re_lex; [apply H; exact Hy|exact Hnx'].
+Qed.
+
+Definition ls_cq (q : CheckQuery) : bool := ls_body (cq_first q :: cq_more q).
+Definition ls_check (c : Check) : bool := forallb ls_cq (ck_first c :: ck_more c).
+
+Lemma check_lex c nx : ls_check c = true -> safe nx = true ->
+  lex_loc (lay_check c) nx = true /\ head_nonws (lay_check c) = true.
+Proof.
+  intros H Hnx. unfold lay_check. split; [|reflexivity].
+  destruct (join_lex [IW 32; IT t_or; IW 32] or_sep_1 or_sep_2 (List.map lay_cq (ck_first c :: ck_more c))
+              ltac:(discriminate)) with (nx := nx) as [J1 J2]; [|exact Hnx|].
+  - apply Forall_forall. intros l Hin. apply in_map_iff in Hin as (q & <- & Hq).
+    unfold ls_check in H. rewrite forallb_forall in H. intros nx' Hnx'. unfold lay_cq. apply body_lex; [apply H; exact Hq|exact Hnx'].
+  - destruct (lay_join [IW 32; IT t_or; IW 32] (List.map lay_cq (ck_first c :: ck_more c))) as [|i l] eqn:E; [discriminate|].
+    cbn [head_nonws] in J2. apply andb_true_iff in J2 as [J2 _].
+    cbn [lex_loc next_byte]. rewrite ok_check_if, (ok_sp _ J2). exact J1.
+Qed.
+
+Definition ls_be (e : BlockElement) : bool :=
+  match e with
+  | BECheck c => ls_check c
+  | BEPred p None => ls_pred p
+  | BEPred p (Some (x, xs)) => ls_pred p && ls_body (x :: xs)
+  end.
+
+Lemma be_lex e nx : ls_be e = true -> safe nx = true ->
+  lex_loc (lay_be e) nx = true /\ head_nonws (lay_be e) = true.
+Proof.
+  destruct e as [c|p [[x xs]|]]; cbn [ls_be lay_be]; intros H Hnx.
+  - apply check_lex; assumption.
+  - apply andb_true_iff in H as [Hp Hb]. destruct (body_lex x xs nx Hb Hnx) as [B1 B2].
+    destruct (pred_lex p (Some 32) Hp) as [P1 P2]. split; [|apply head_app; exact P2].
+    apply lex_cat; [exact P1|]. apply lex_op; [reflexivity|reflexivity|exact B2|exact B1].
+  - apply pred_lex. exact H.
+Qed.
+
+Definition ls_block (B : Block) : bool := forallb ls_be (bl_body B).
+
+Lemma block_lex_list : forall l, forallb ls_be l = true ->
+  lex_loc (List.concat (List.map (fun e => lay_be e ++ [IT t_semi]) l)) None = true.
+Proof.
+  induction l as [|e l IH]; intros H; [reflexivity|].
+  cbn [forallb] in H. apply andb_true_iff in H as [He Hl]. cbn [List.map List.concat].
+  apply lex_cat; [|apply IH; exact Hl].
+  apply lex_cat; [exact (proj1 (be_lex e (Some 59) He eq_refl))|].
+  cbn [lex_loc]. rewrite ok_semi. reflexivity.
+Qed.
+
+(* the printed layout of a block whose tokens are individually safe is lexable *)
+Theorem lay_block_lexable B : ls_block B = true -> lexable_i (lay_block B) = true.
+Proof. intros H. apply lex_loc_lexable. apply block_lex_list. exact H. Qed.
+
+(* the printable domain of C15, as one computable condition on the block's grammar tree:
+   no comments, printers' order, printable terms/expressions (pr_be), the parser's
+   (wfb_block) and the lexer's (ls_block) per-token side conditions *)
+Definition printable_block (B : Block) : bool :=
+  is_nil (bl_comments B) && sorted3 (bl_body B) && forallb pr_be (bl_body B) && wfb_block B && ls_block B.
+
+Theorem C15_roundtrip_structural : forall sidx B b,
+  printable_block B = true -> block_to_biscuit [] B = Ok b ->
+  parse_block (reassemble (print_block sidx b)) [] = Ok b.
+Proof.
+  intros sidx B b H Hb. unfold printable_block in H.
+  repeat match goal with Hx : (_ && _) = true |- _ => apply andb_true_iff in Hx; destruct Hx end.
+  apply (C15_roundtrip sidx B b); try assumption.
+  - destruct (bl_comments B); [reflexivity|discriminate].
+  - apply lay_block_lexable. assumption.
+Qed.
+
+Example C15_roundtrip_structural_nonvacuous :
+  printable_block ex_block = true /\ is_ok (block_to_biscuit [] ex_block) = true.
+Proof. vm_compute. split; reflexivity. Qed.
+
+(* ================================================================== *)
+(* every parsed block has a grammar tree in the printers' order         *)
+(* ================================================================== *)
+Definition is_pred (x : RuleElement) : bool := match x with REPred _ => true | _ => false end.
+Definition norm_body (l : list RuleElement) : list RuleElement := filter is_pred l ++ filter is_expr l.
+
+Lemma body_app ps : forall l1 l2 q1 o1 q2 o2,
+  body_to_biscuit ps l1 = Ok (q1, o1) -> body_to_biscuit ps l2 = Ok (q2, o2) ->
+  body_to_biscuit ps (l1 ++ l2) = Ok (q1 ++ q2, o1 ++ o2).
+Proof.
+  induction l1 as [|[p|e] l1 IH]; intros l2 q1 o1 q2 o2 H1 H2.
+  - cbn in H1. injection H1 as <- <-. exact H2.
+  - cbn [body_to_biscuit app] in *. destruct (pred_to_biscuit ps p) as [q| |]; cbn [bind] in *; try discriminate.
+    destruct (body_to_biscuit ps l1) as [[qa oa]| |] eqn:E; cbn [bind fst snd] in *; try discriminate.
+    injection H1 as <- <-. rewrite (IH l2 qa oa q2 o2 eq_refl H2). reflexivity.
+  - cbn [body_to_biscuit app] in *. destruct (expr_to_biscuit ps e) as [x| |]; cbn [bind] in *; try discriminate.
+    destruct (body_to_biscuit ps l1) as [[qa oa]| |] eqn:E; cbn [bind fst snd] in *; try discriminate.
+    injection H1 as <- <-. rewrite (IH l2 qa oa q2 o2 eq_refl H2). reflexivity.
+Qed.
+
+Lemma body_split ps : forall l qs os,
+  body_to_biscuit ps l = Ok (qs, os) ->
+  body_to_biscuit ps (filter is_pred l) = Ok (qs, []) /\ body_to_biscuit ps (filter is_expr l) = Ok ([], os).
+Proof.
+  induction l as [|[p|e] l IH]; intros qs os H.
+  - cbn in H. injection H as <- <-. split; reflexivity.
+  - cbn [body_to_biscuit] in H. destruct (pred_to_biscuit ps p) as [q| |] eqn:Ep; cbn [bind] in H; try discriminate.
+    destruct (body_to_biscuit ps l) as [[qa oa]| |] eqn:E; cbn [bind fst snd] in H; try discriminate.
+    injection H as <- <-. destruct (IH qa oa eq_refl) as [I1 I2].
+    cbn [filter is_pred is_expr body_to_biscuit]. rewrite Ep. cbn [bind]. rewrite I1. cbn [bind fst snd].
+    split; [reflexivity|exact I2].
+  - cbn [body_to_biscuit] in H. destruct (expr_to_biscuit ps e) as [x| |] eqn:Ee; cbn [bind] in H; try discriminate.
+    destruct (body_to_biscuit ps l) as [[qa oa]| |] eqn:E; cbn [bind fst snd] in H; try discriminate.
+    injection H as <- <-. destruct (IH qa oa eq_refl) as [I1 I2].
+    cbn [filter is_pred is_expr body_to_biscuit]. rewrite Ee. cbn [bind]. rewrite I2. cbn [bind fst snd].
+    split; [exact I1|reflexivity].
+Qed.
+
+Lemma norm_body_conv ps l qs os :
+  body_to_biscuit ps l = Ok (qs, os) -> body_to_biscuit ps (norm_body l) = Ok (qs, os).
+Proof.
+  intros H. destruct (body_split ps l qs os H) as [H1 H2]. unfold norm_body.
+  rewrite (body_app ps _ _ _ _ _ _ H1 H2), app_nil_r. reflexivity.
+Qed.
+
+Lemma norm_body_nf l : nf_elems (norm_body l) = true.
+Proof.
+  unfold norm_body. induction l as [|[p|e] l IH]; [reflexivity| |].
+  - cbn [filter is_pred is_expr app nf_elems]. exact IH.
+  - cbn [filter is_pred is_expr]. clear IH.
+    assert (H : forall l1 l2, forallb is_pred l1 = true -> forallb is_expr l2 = true -> nf_elems (l1 ++ l2) = true).
+    { induction l1 as [|[p|e'] l1 IH1]; intros l2 H1 H2; [apply exprs_nf; exact H2| |discriminate].
+      cbn [app nf_elems]. apply IH1; [exact H1|exact H2]. }
+    apply H.
+    + apply forallb_forall. intros x Hx. apply filter_In in Hx. tauto.
+    + cbn [forallb is_expr]. apply forallb_forall. intros x Hx. apply filter_In in Hx. tauto.
+Qed.
+
+Lemma norm_body_nonempty x xs : norm_body (x :: xs) <> [].
+Proof. unfold norm_body. destruct x; cbn [filter is_pred is_expr]; [discriminate|]. destruct (filter is_pred xs); discriminate. Qed.
+
+Definition norm_cq (q : CheckQuery) : CheckQuery :=
+  match norm_body (cq_first q :: cq_more q) with
+  | x :: xs => MkCheckQuery x xs
+  | [] => q
+  end.
+Lemma norm_cq_conv ps q r : query_to_biscuit ps q = Ok r -> query_to_biscuit ps (norm_cq q) = Ok r.
+Proof.
+  unfold query_to_biscuit, norm_cq. intros H.
+  destruct (body_to_biscuit ps (cq_first q :: cq_more q)) as [[qs os]| |] eqn:E; cbn [bind] in H; try discriminate.
+  pose proof (norm_body_conv ps _ _ _ E) as En.
+  destruct (norm_body (cq_first q :: cq_more q)) as [|x xs] eqn:Eb; [exfalso; exact (norm_body_nonempty _ _ Eb)|].
+  cbn [cq_first cq_more]. rewrite En. exact H.
+Qed.
+Lemma norm_cq_nf q : nf_elems (cq_first (norm_cq q) :: cq_more (norm_cq q)) = true.
+Proof.
+  unfold norm_cq. pose proof (norm_body_nf (cq_first q :: cq_more q)) as H.
+  destruct (norm_body (cq_first q :: cq_more q)) as [|x xs] eqn:Eb; [exfalso; exact (norm_body_nonempty _ _ Eb)|].
+  exact H.
+Qed.
+
+Lemma norm_queries_conv ps : forall l rs,
+  queries_to_biscuit ps l = Ok rs -> queries_to_biscuit ps (List.map norm_cq l) = Ok rs.
+Proof.
+  induction l as [|q l IH]; intros rs H; [exact H|].
+  cbn [queries_to_biscuit List.map] in *.
+  destruct (query_to_biscuit ps q) as [r| |] eqn:E; cbn [bind] in H; try discriminate.
+  rewrite (norm_cq_conv ps q r E). cbn [bind].
+  destruct (queries_to_biscuit ps l) as [rs'| |] eqn:E2; cbn [bind] in H; try discriminate.
+  rewrite (IH rs' eq_refl). exact H.
+Qed.
+
+Definition norm_check (c : Check) : Check := MkCheck (norm_cq (ck_first c)) (List.map norm_cq (ck_more c)).
+Lemma norm_check_conv ps c x : check_to_biscuit ps c = Ok x -> check_to_biscuit ps (norm_check c) = Ok x.
+Proof. unfold check_to_biscuit, norm_check. cbn [ck_first ck_more]. apply (norm_queries_conv ps (ck_first c :: ck_more c)). Qed.
+
+Definition norm_be (e : BlockElement) : BlockElement :=
+  match e with
+  | BECheck c => BECheck (norm_check c)
+  | BEPred p None => e
+  | BEPred p (Some (x, xs)) =>
+      match norm_body (x :: xs) with
+      | y :: ys => BEPred p (Some (y, ys))
+      | [] => e
+      end
+  end.
+Lemma norm_be_conv ps b0 e b :
+  block_element_to_biscuit ps b0 e = Ok b -> block_element_to_biscuit ps b0 (norm_be e) = Ok b.
+Proof.
+  destruct e as [c|p [[x xs]|]]; cbn [norm_be block_element_to_biscuit]; intros H.
+  - destruct (check_to_biscuit ps c) as [xc| |] eqn:E; cbn [bind] in H; try discriminate.
+    rewrite (norm_check_conv ps c xc E). exact H.
+  - destruct (norm_body (x :: xs)) as [|y ys] eqn:Eb; [exfalso; exact (norm_body_nonempty _ _ Eb)|].
+    cbn [block_element_to_biscuit fst snd] in *. unfold rule_parts_to_biscuit in *.
+    destruct (body_to_biscuit ps (x :: xs)) as [[qs os]| |] eqn:E; cbn [bind] in H; try discriminate.
+    pose proof (norm_body_conv ps _ _ _ E) as En. rewrite Eb in En. rewrite En. exact H.
+  - exact H.
+Qed.
+Lemma norm_be_class e : be_class (norm_be e) = be_class e.
+Proof.
+  destruct e as [c|p [[x xs]|]]; cbn [norm_be]; try reflexivity.
+  destruct (norm_body (x :: xs)); reflexivity.
+Qed.
+
+(* block level: the three result lists depend only on the order within each class *)
+Definition classed (k : N) (l : list BlockElement) : list BlockElement :=
+  filter (fun e => be_class e =? k) l.
+Definition norm_elems (l : list BlockElement) : list BlockElement :=
+  let l' := List.map norm_be l in classed 0 l' ++ classed 1 l' ++ classed 2 l'.
+Definition norm_block (B : Block) : Block := MkBlock [] (norm_elems (bl_body B)).
+
+(* the conversion of a list of elements, as the three lists it appends *)
+Fixpoint conv3 (ps : params) (l : list BlockElement) : res (list pred * list rule * list check) :=
+  match l with
+  | [] => Ok ([], [], [])
+  | e :: l' =>
+      do b1 <- block_element_to_biscuit ps empty_block e;
+      do r <- conv3 ps l';
+      Ok (b_facts b1 ++ fst (fst r), b_rules b1 ++ snd (fst r), b_checks b1 ++ snd r)
+  end.
+
+Definition bplus (b0 b1 : block) : block :=
+  {| b_facts := b_facts b0 ++ b_facts b1; b_rules := b_rules b0 ++ b_rules b1; b_checks := b_checks b0 ++ b_checks b1 |}.
+
+(* an element adds to exactly one list, according to its class *)
+Lemma be_conv_shape ps b0 e b :
+  block_element_to_biscuit ps b0 e = Ok b ->
+  exists b1, block_element_to_biscuit ps empty_block e = Ok b1 /\ b = bplus b0 b1 /\
+             (be_class e = 0 -> b_rules b1 = [] /\ b_checks b1 = []) /\
+             (be_class e = 1 -> b_facts b1 = [] /\ b_checks b1 = []) /\
+             (be_class e = 2 -> b_facts b1 = [] /\ b_rules b1 = []).
+Proof.
+  destruct e as [c|p [[x xs]|]]; cbn [block_element_to_biscuit be_class]; intros H.
+  - destruct (check_to_biscuit ps c) as [xc| |]; cbn [bind] in *; try discriminate. injection H as <-.
+    eexists. split; [reflexivity|]. unfold bplus, add_check. cbn. rewrite !app_nil_r.
+    repeat split; try reflexivity; intros; discriminate.
+  - destruct (rule_parts_to_biscuit ps p (fst (x, xs) :: snd (x, xs))) as [r| |]; cbn [bind] in *; try discriminate.
+    injection H as <-. eexists. split; [reflexivity|]. unfold bplus, add_rule. cbn. rewrite !app_nil_r.
+    repeat split; try reflexivity; intros; discriminate.
+  - destruct (pred_to_biscuit ps p) as [q| |]; cbn [bind] in *; try discriminate. injection H as <-.
+    eexists. split; [reflexivity|]. unfold bplus, add_fact. cbn. rewrite !app_nil_r.
+    repeat split; try reflexivity; intros; discriminate.
+Qed.
+
+Lemma be_conv_plus ps b0 e b1 :
+  block_element_to_biscuit ps empty_block e = Ok b1 -> block_element_to_biscuit ps b0 e = Ok (bplus b0 b1).
+Proof.
+  destruct e as [c|p [[x xs]|]]; cbn [block_element_to_biscuit]; intros H.
+  - destruct (check_to_biscuit ps c) as [xc| |]; cbn [bind] in *; try discriminate. injection H as <-.
+    unfold bplus, add_check. cbn. rewrite !app_nil_r. reflexivity.
+  - destruct (rule_parts_to_biscuit ps p (fst (x, xs) :: snd (x, xs))) as [r| |]; cbn [bind] in *; try discriminate.
+    injection H as <-. unfold bplus, add_rule. cbn. rewrite !app_nil_r. reflexivity.
+  - destruct (pred_to_biscuit ps p) as [q| |]; cbn [bind] in *; try discriminate. injection H as <-.
+    unfold bplus, add_fact. cbn. rewrite !app_nil_r. reflexivity.
+Qed.
+
+Definition of3 (r : list pred * list rule * list check) : block :=
+  {| b_facts := fst (fst r); b_rules := snd (fst r); b_checks := snd r |}.
+
+Lemma bplus_assoc a b c : bplus (bplus a b) c = bplus a (bplus b c).
+Proof. unfold bplus. cbn. rewrite !app_assoc. reflexivity. Qed.
+
+Lemma bes_conv3 ps : forall l b0 b,
+  block_elements_to_biscuit ps b0 l = Ok b ->
+  exists r, conv3 ps l = Ok r /\ b = bplus b0 (of3 r).
+Proof.
+  induction l as [|e l IH]; intros b0 b H.
+  - cbn in H. injection H as <-. exists ([], [], []). split; [reflexivity|].
+    unfold bplus, of3. cbn. rewrite !app_nil_r. destruct b0; reflexivity.
+  - cbn [block_elements_to_biscuit] in H.
+    destruct (block_element_to_biscuit ps b0 e) as [b'| |] eqn:E; cbn [bind] in H; try discriminate.
+    destruct (be_conv_shape ps b0 e b' E) as (b1 & E1 & -> & _).
+    destruct (IH _ _ H) as (r & Hr & ->).
+    cbn [conv3]. rewrite E1. cbn [bind]. rewrite Hr. cbn [bind]. eexists. split; [reflexivity|].
+    rewrite bplus_assoc. reflexivity.
+Qed.
+
+Lemma conv3_bes ps : forall l b0 r,
+  conv3 ps l = Ok r -> block_elements_to_biscuit ps b0 l = Ok (bplus b0 (of3 r)).
+Proof.
+  induction l as [|e l IH]; intros b0 r H.
+  - cbn in H. injection H as <-. cbn. unfold bplus, of3. cbn. rewrite !app_nil_r. destruct b0; reflexivity.
+  - cbn [conv3] in H.
+    destruct (block_element_to_biscuit ps empty_block e) as [b1| |] eqn:E; cbn [bind] in H; try discriminate.
+    destruct (conv3 ps l) as [r'| |] eqn:E2; cbn [bind] in H; try discriminate. injection H as <-.
+    cbn [block_elements_to_biscuit]. rewrite (be_conv_plus ps b0 e b1 E). cbn [bind].
+    rewrite (IH (bplus b0 b1) r' eq_refl). rewrite bplus_assoc. reflexivity.
+Qed.
+
+Lemma conv3_app ps : forall l1 l2 r1 r2,
+  conv3 ps l1 = Ok r1 -> conv3 ps l2 = Ok r2 ->
+  conv3 ps (l1 ++ l2) = Ok (fst (fst r1) ++ fst (fst r2), snd (fst r1) ++ snd (fst r2), snd r1 ++ snd r2).
+Proof.
+  induction l1 as [|e l1 IH]; intros l2 r1 r2 H1 H2.
+  - cbn in H1. injection H1 as <-. cbn. rewrite H2. destruct r2 as [[a b] c]. reflexivity.
+  - cbn [conv3 app] in *.
+    destruct (block_element_to_biscuit ps empty_block e) as [b1| |]; cbn [bind] in *; try discriminate.
+    destruct (conv3 ps l1) as [r'| |] eqn:E; cbn [bind] in *; try discriminate. injection H1 as <-.
+    rewrite (IH l2 r' r2 eq_refl H2). cbn [bind fst snd]. rewrite !app_assoc. reflexivity.
+Qed.
+
+(* the elements of one class, converted alone, give that class's list *)
+Lemma conv3_classed ps : forall l r,
+  conv3 ps l = Ok r ->
+  conv3 ps (classed 0 l) = Ok (fst (fst r), [], []) /\
+  conv3 ps (classed 1 l) = Ok ([], snd (fst r), []) /\
+  conv3 ps (classed 2 l) = Ok ([], [], snd r).
+Proof.
+  induction l as [|e l IH]; intros r H.
+  - cbn in H. injection H as <-. repeat split; reflexivity.
+  - cbn [conv3] in H.
+    destruct (block_element_to_biscuit ps empty_block e) as [b1| |] eqn:E; cbn [bind] in H; try discriminate.
+    destruct (conv3 ps l) as [r'| |] eqn:E2; cbn [bind] in H; try discriminate. injection H as <-.
+    destruct (IH r' eq_refl) as (I0 & I1 & I2).
+    destruct (be_conv_shape ps empty_block e b1 E) as (b1' & E1 & _ & S0 & S1 & S2).
+    rewrite E in E1. injection E1 as <-.
+    unfold classed in *. cbn [filter fst snd].
+    destruct e as [c|p [[x xs]|]]; cbn [be_class N.eqb Pos.eqb] in *.
+    + destruct (S2 eq_refl) as [F R]. rewrite F, R. cbn [app conv3]. rewrite E. cbn [bind]. rewrite I2. cbn [bind fst snd].
+      rewrite F, R. repeat split; try assumption; reflexivity.
+    + destruct (S1 eq_refl) as [F C]. rewrite F, C. cbn [app conv3]. rewrite E. cbn [bind]. rewrite I1. cbn [bind fst snd].
+      rewrite F, C. repeat split; try assumption; try reflexivity; rewrite ?app_nil_r; reflexivity.
+    + destruct (S0 eq_refl) as [R C]. rewrite R, C. cbn [app conv3]. rewrite E. cbn [bind]. rewrite I0. cbn [bind fst snd].
+      rewrite R, C. repeat split; try assumption; try reflexivity.
+Qed.
+
+Lemma conv3_norm ps : forall l r, conv3 ps l = Ok r -> conv3 ps (List.map norm_be l) = Ok r.
+Proof.
+  induction l as [|e l IH]; intros r H; [exact H|].
+  cbn [conv3 List.map] in *.
+  destruct (block_element_to_biscuit ps empty_block e) as [b1| |] eqn:E; cbn [bind] in H; try discriminate.
+  rewrite (norm_be_conv ps empty_block e b1 E). cbn [bind].
+  destruct (conv3 ps l) as [r'| |] eqn:E2; cbn [bind] in H; try discriminate.
+  rewrite (IH r' eq_refl). exact H.
+Qed.
+
+(* C15, "from_grammar": whatever tree the parser built, the normalised tree denotes
+   the same block *)
+Theorem norm_block_conv : forall ps G b,
+  block_to_biscuit ps G = Ok b -> block_to_biscuit ps (norm_block G) = Ok b.
+Proof.
+  intros ps G b H. unfold block_to_biscuit, norm_block in *. cbn [bl_body].
+  destruct (bes_conv3 ps _ _ _ H) as (r & Hr & ->).
+  pose proof (conv3_norm ps _ _ Hr) as Hn.
+  destruct (conv3_classed ps _ _ Hn) as (C0 & C1 & C2).
+  unfold norm_elems.
+  pose proof (conv3_app ps _ _ _ _ C1 C2) as C12. cbn [fst snd app] in C12.
+  pose proof (conv3_app ps _ _ _ _ C0 C12) as C012. cbn [fst snd app] in C012.
+  rewrite !app_nil_r in C012.
+  rewrite (conv3_bes ps _ empty_block _ C012). unfold of3. cbn [fst snd]. destruct r as [[a c] d]. reflexivity.
+Qed.
+
+Lemma norm_block_sorted G : sorted3 (bl_body (norm_block G)) = true.
+Proof.
+  unfold norm_block, norm_elems. cbn [bl_body]. set (l := List.map norm_be (bl_body G)).
+  assert (H : forall l0 l1 l2,
+            forallb (fun e => be_class e =? 0) l0 = true -> forallb (fun e => be_class e =? 1) l1 = true ->
+            forallb (fun e => be_class e =? 2) l2 = true -> sorted3 (l0 ++ l1 ++ l2) = true).
+  { assert (H2 : forall l2, forallb (fun e => be_class e =? 2) l2 = true -> sorted3 l2 = true).
+    { induction l2 as [|e l2 IH2]; intros Hc; [reflexivity|]. cbn [forallb] in Hc. apply andb_true_iff in Hc as [He Hc].
+      cbn [sorted3]. rewrite (IH2 Hc), andb_true_r. apply N.eqb_eq in He. rewrite He.
+      apply (forallb_weaken (fun e' => be_class e' =? 2)); [|exact Hc]. intros a Ha. apply N.eqb_eq in Ha. rewrite Ha. reflexivity. }
+    assert (H1 : forall l1 l2, forallb (fun e => be_class e =? 1) l1 = true ->
+                 forallb (fun e => be_class e =? 2) l2 = true -> sorted3 (l1 ++ l2) = true).
+    { induction l1 as [|e l1 IH1]; intros l2 Hc1 Hc2; [exact (H2 l2 Hc2)|]. cbn [forallb] in Hc1.
+      apply andb_true_iff in Hc1 as [He Hc1]. cbn [app sorted3]. rewrite (IH1 l2 Hc1 Hc2), andb_true_r.
+      apply N.eqb_eq in He. rewrite He. rewrite forallb_app. apply andb_true_iff. split.
+      - apply (forallb_weaken (fun e' => be_class e' =? 1)); [|exact Hc1]. intros a Ha. apply N.eqb_eq in Ha. rewrite Ha. reflexivity.
+      - apply (forallb_weaken (fun e' => be_class e' =? 2)); [|exact Hc2]. intros a Ha. apply N.eqb_eq in Ha. rewrite Ha. reflexivity. }
+    induction l0 as [|e l0 IH0]; intros l1 l2 Hc0 Hc1 Hc2; [exact (H1 l1 l2 Hc1 Hc2)|]. cbn [forallb] in Hc0.
+    apply andb_true_iff in Hc0 as [He Hc0]. cbn [app sorted3]. rewrite (IH0 l1 l2 Hc0 Hc1 Hc2), andb_true_r.
+    apply N.eqb_eq in He. rewrite He. apply forallb_forall. intros a _. apply N.leb_le. lia. }
+  apply H; unfold classed; apply forallb_forall; intros x Hx; apply filter_In in Hx; tauto.
+Qed.
+
+(* C15 for every block the parser produces: print it, parse the printed text *)
+Theorem C15_roundtrip_from_grammar : forall sidx G b,
+  block_to_biscuit [] G = Ok b -> printable_block (norm_block G) = true ->
+  parse_block (reassemble (print_block sidx b)) [] = Ok b.
+Proof.
+  intros sidx G b Hb Hp. apply (C15_roundtrip_structural sidx (norm_block G) b Hp).
+  apply norm_block_conv. exact Hb.
+Qed.
+
+(* the dates the printer emits are in the printable domain *)
+Lemma date_ok_fmt d : (0 <= d < 253402300800)%Z -> date_ok (fmt_rfc3339 d) = true.
+Proof.
+  intros H. unfold date_ok. rewrite (rfc3339_roundtrip d H).
+  apply andb_true_iff. split; [apply andb_true_iff; split; [apply Z.leb_le|apply Z.ltb_lt]; lia|apply bytes_eqb_refl].
+Qed.
+
+(* non-vacuity of the from_grammar form: a text whose elements and rule bodies are NOT in
+   the printers' order; its block is printed in the printers' order and parses back *)
+Definition ex_unordered_text : string :=
+  "check if a(1), $x < 2, b($x) or c(3); r($x) <- $x.contains(""s""), s($x, [10, 2]), !false; f(1, hex:00ff, 2021-05-06T07:08:09Z);".
+Definition ex_unordered : Block :=
+  match lex (bs ex_unordered_text) with
+  | Ok ts => match run parse_block_g ts with Ok b => b | _ => MkBlock [] [] end
+  | _ => MkBlock [] []
+  end.
+Example C15_from_grammar_nonvacuous :
+  sorted3 (bl_body ex_unordered) = false /\
+  printable_block (norm_block ex_unordered) = true /\
+  (exists b, block_to_biscuit [] ex_unordered = Ok b /\
+             reassemble (print_block (fun _ => 0) b)
+             = bs "f(1, hex:00ff, 2021-05-06T07:08:09Z);r($x) <- s($x, [10, 2]), $x.contains(""s""), !false;check if a(1), b($x), $x < 2 or c(3);").
+Proof.
+  split; [vm_compute; reflexivity|]. split; [vm_compute; reflexivity|].
+  eexists. split; vm_compute; reflexivity.
+Qed.
+
+(* ================================================================== *)
+(* Assumptions                                                          *)
+(* ================================================================== *)
+Print Assumptions C14_to_ops_postfix.
+Print Assumptions parse_unparse_expr.
+Print Assumptions parse_unparse_term.
+Print Assumptions parse_unparse_predicate.
+Print Assumptions parse_unparse_rule_element.
+Print Assumptions parse_unparse_check_query.
+Print Assumptions parse_unparse_check.
+Print Assumptions parse_unparse_policy.
+Print Assumptions parse_unparse_rule.
+Print Assumptions parse_unparse_block_element.
+Print Assumptions parse_unparse_block.
+Print Assumptions parse_unparse_authorizer.
+Print Assumptions lex_render.
+Print Assumptions lex_items.
+Print Assumptions C14_parse_unparse_fact.
+Print Assumptions C14_parse_unparse_rule.
+Print Assumptions C14_parse_unparse_check.
+Print Assumptions C14_parse_unparse_policy.
+Print Assumptions C14_parse_unparse_block.
+Print Assumptions C14_parse_unparse_authorizer.
+Print Assumptions C14_comparison_consumes_one.
+Print Assumptions C14_rejects_chained_comparison.
+Print Assumptions C14_rejects_double_negation.
+Print Assumptions C14_variable_in_set.
+Print Assumptions C14_variable_param_in_set.
+Print Assumptions C14_unbound_parameter.
+Print Assumptions C14_bad_term_in_predicate.
+Print Assumptions C14_bad_term_in_expression.
+Print Assumptions lex_total.
+Print Assumptions parse_fact_total.
+Print Assumptions parse_rule_total.
+Print Assumptions parse_check_total.
+Print Assumptions parse_policy_total.
+Print Assumptions parse_block_total.
+Print Assumptions parse_authorizer_total.
+Print Assumptions civil_roundtrip.
+Print Assumptions rfc3339_roundtrip.
+Print Assumptions C15_print_expr.
+Print Assumptions C15_roundtrip.
+Print Assumptions lay_block_lexable.
+Print Assumptions C15_roundtrip_structural.
+Print Assumptions norm_block_conv.
+Print Assumptions C15_roundtrip_from_grammar.
